@@ -217,3 +217,82 @@ func SleepCtx(ctx context.Context, d time.Duration) bool {
 	k := CaseAfter(d)
 	return Select(false, k, CaseDone(ctx)) == 0
 }
+
+// Ticker is the shim for time.Ticker: C receives a tick every d of virtual time
+// (ticks are dropped while one is pending, like the real one).
+type Ticker struct {
+	C       *Chan[time.Time]
+	d       time.Duration
+	stopped bool
+	t       *timer
+}
+
+func NewTicker(d time.Duration) *Ticker {
+	if d <= 0 {
+		panic("non-positive interval for NewTicker")
+	}
+	s := must()
+	k := &Ticker{C: NewChan[time.Time](1), d: d}
+	var arm func()
+	arm = func() {
+		k.t = s.addTimer(k.d, fmt.Sprintf("ticker(%v)", k.d), func() {
+			if k.stopped {
+				return
+			}
+			if len(k.C.buf) < k.C.cap {
+				k.C.buf = append(k.C.buf, Base.Add(s.clock))
+			}
+			arm()
+		})
+	}
+	arm()
+	return k
+}
+
+func (k *Ticker) Stop() {
+	k.stopped = true
+	if k.t != nil {
+		k.t.dead = true
+	}
+}
+
+func (k *Ticker) Reset(d time.Duration) { k.d = d }
+
+// Timer is the shim for time.Timer.
+type Timer struct {
+	C     *Chan[time.Time]
+	t     *timer
+	fired bool
+}
+
+func NewTimer(d time.Duration) *Timer {
+	s := must()
+	k := &Timer{C: NewChan[time.Time](1)}
+	k.t = s.addTimer(d, fmt.Sprintf("timer(%v)", d), func() { k.fired = true; k.C.buf = append(k.C.buf, Base.Add(s.clock)) })
+	return k
+}
+
+func (k *Timer) Stop() bool {
+	was := !k.fired && !k.t.dead
+	k.t.dead = true
+	return was
+}
+
+func (k *Timer) Reset(d time.Duration) bool {
+	was := k.Stop()
+	s := must()
+	k.fired = false
+	k.t = s.addTimer(d, fmt.Sprintf("timer(%v)", d), func() { k.fired = true; k.C.buf = append(k.C.buf, Base.Add(s.clock)) })
+	return was
+}
+
+// TimeAfterFunc is time.AfterFunc: f runs in its own logical thread after d.
+func TimeAfterFunc(d time.Duration, f func()) *Timer {
+	s := must()
+	k := &Timer{C: nil}
+	k.t = s.addTimer(d, fmt.Sprintf("afterfunc(%v)", d), func() {
+		k.fired = true
+		s.spawn("time.AfterFunc", f)
+	})
+	return k
+}
